@@ -395,6 +395,10 @@ func (p ParametersLiteral) GetK() (K int, err error) {
 		if K < 0 {
 			return K, fmt.Errorf("field K cannot be negative")
 		}
+
+		if K == 0 {
+			return K, fmt.Errorf("field K cannot be zero")
+		}
 	}
 
 	return
